@@ -18,6 +18,7 @@ def lt_entries():
     return out
 
 
+@guarded
 def rule_acc(repo):
     res = RuleResult('C03.ACC', 'matrix helpers place the translation slot in [:3, 3] and build the rotation(-scale) block from the '
                      'quaternion(,scale) slot; all helper arguments are typed against the accessor-derived layout', floor=8)
@@ -92,6 +93,7 @@ def _block(idx):
     return None
 
 
+@guarded
 def rule_id(repo):
     res = RuleResult('C03.ID', 'identity constructors: the literal has zeros on translation / quaternion-vector slots and ones on the '
                      'quaternion-w and scale slots; algebra identity is Log of the group identity; identity_ zeroes then sets w', floor=9)
@@ -145,6 +147,7 @@ def rule_id(repo):
     return res
 
 
+@guarded
 def rule_sb(repo):
     res = RuleResult('C03.SB', 'forward isomorphism: Sim3 {Mul, Inv, Act, Act4} equal SE3\'s under SO3_ -> RxSO3_, and RxSO3_Act4 equals '
                      'SO3_Act4 under the same renaming (inlined return expressions compared after alpha-renaming)', floor=5)
@@ -173,6 +176,7 @@ def rule_sb(repo):
     return res
 
 
+@guarded
 def rule_dt(repo):
     res = RuleResult('C03.DT', 'Mul (LieTensor operand) and Inv return the group\'s own ltype through the family\'s own op; Act returns '
                      'a plain tensor computed by the family\'s Act/Act4', floor=12)
@@ -208,6 +212,7 @@ def rules(repo, tier):
     return [rule_layout(repo, 'C03.LT', lt_entries(), floor=16), rule_acc(repo), rule_id(repo), rule_sb(repo), rule_dt(repo), rule_nosign(repo), rule_mat(repo)]
 
 
+@guarded
 def rule_mat(repo):
     res = RuleResult('C03.MAT', 'matrix() is the action on the basis vectors: Act applied to an identity matrix of the representation size '
                      '(4 in general, 3 for SO3/so3), transposed back; algebra types go through Exp first; LieTensor.matrix dispatches to the type', floor=4)
@@ -244,6 +249,7 @@ def rule_mat(repo):
     return res
 
 
+@guarded
 def rule_nosign(repo):
     res = RuleResult('C03.NOSIGN', 'no group operation multiplies its result by a factor that is exactly zero somewhere (torch.sign / .sign(): '
                      'sign(0) = 0 collapses the unit quaternion to zero; the library\'s pm() maps 0 to +1): results remain valid group elements', floor=16)
